@@ -885,6 +885,13 @@ class Pin(object):
     def reset(self):
         self.ctr = {}
         self.cur = None
+        # cached private keys carry RSA blinding state from earlier conversations (the first private
+        # operation draws the blinding factor); start every conversation from the same key state
+        from harness import lab
+        for chain, key in lab._CREDS.values():
+            if hasattr(key, "blinder"):
+                key.blinder = 0
+                key.unblinder = 0
 
     def urandom(self, n):
         import hashlib
@@ -1394,6 +1401,10 @@ def play_blocking(scn, spec, pin, timeout=15.0):
         ss_ = ChunkSock(b, sched_iter(spec.get("server", ("none", "none"))[0], spec["seed"], "serverr"),
                         sched_iter(spec.get("server", ("none", "none"))[1], spec["seed"], "servers"))
         cconn, sconn = TLSConnection(cs_), TLSConnection(ss_)
+        del _HB[:]
+        if scn.get("close_wait"):
+            cconn.closeSocket = False
+            sconn.closeSocket = False
         c, sv = start_handshake(None, scn, session=session, cache=cache, blocking=True)
         res = {"client": {}, "server": {}}
 
@@ -1420,7 +1431,11 @@ def play_blocking(scn, spec, pin, timeout=15.0):
             if not stage(r, "hs", lambda: c(cconn)):
                 cs_.close()
                 return
-            if not stage(r, "w1", lambda: cconn.write(d1)):
+            def w1():
+                if scn.get("hb"):
+                    cconn.send_heartbeat_request(b"c14-ping", 16)
+                cconn.write(d1)
+            if not stage(r, "w1", w1):
                 return
             if not stage(r, "r2", lambda: read_n(cconn, len(d2), got2)):
                 return
@@ -1475,6 +1490,8 @@ def play_blocking(scn, spec, pin, timeout=15.0):
             o["data_s2c_ok"] = bytes(got2) == d2
             o["data_c2s"] = hashlib.sha256(bytes(got1)).hexdigest()[:16] + ":%d" % len(got1)
             o["data_s2c"] = hashlib.sha256(bytes(got2)).hexdigest()[:16] + ":%d" % len(got2)
+            if scn.get("hb"):
+                o["heartbeat_responses"] = [x.hex() for x in _HB]
             if scn.get("ku"):
                 o["w3"] = res["client"].get("w3", ["stall", "none"])
                 o["r3"] = res["server"].get("r3", ["stall", "none"])
@@ -1536,6 +1553,10 @@ def play_asm(scn, spec, pin, order_seed=None):
         apply_schedule(L, spec)
         c, sv = start_handshake(L, scn, session=session, cache=cache)
         cm, sm = M(L.client.conn, "client"), M(L.server.conn, "server")
+        del _HB[:]
+        if scn.get("close_wait"):
+            L.client.conn.closeSocket = False
+            L.server.conn.closeSocket = False
 
         def guarded(m, what, f):
             pin.cur = m.name
@@ -1558,6 +1579,16 @@ def play_asm(scn, spec, pin, order_seed=None):
                 m.stage["hs"] = ["done", "none"]
             if m.stage["hs"][0] != "done":
                 return False
+            if scn.get("hb") and "hb" not in m.stage:
+                m.stage["hb"] = ["running", "none"]
+
+                def start_hb():
+                    m._checkAssert(0)
+                    m.writer = m.tlsConnection.write_heartbeat(b"c14-ping", 16)
+                    m._doWriteOp()
+                return guarded(m, "hb", start_hb)
+            if scn.get("hb") and m.stage["hb"][0] == "running":
+                m.stage["hb"] = ["done", "none"]
             if "w1" not in m.stage:
                 m.stage["w1"] = ["running", "none"]
                 return guarded(m, "w1", lambda: m.setWriteOp(d1))
@@ -1628,8 +1659,14 @@ def play_asm(scn, spec, pin, order_seed=None):
 
         idle = 0
         steps = 0
+        def signature():
+            return (L.link.activity, len(cm.got), len(sm.got), cm.connected, sm.connected, cm.peer_closed,
+                    sm.peer_closed, cm.closed_done, sm.closed_done, len(cm.stage), len(sm.stage),
+                    repr(sorted((k, v[0]) for k, v in cm.stage.items() if isinstance(v, list))),
+                    repr(sorted((k, v[0]) for k, v in sm.stage.items() if isinstance(v, list))))
+
         while True:
-            before = L.link.activity
+            before = signature()
             progressed = False
             ms = [(cm, client_next), (sm, server_next)]
             if rng is not None and rng.random() < 0.5:
@@ -1651,7 +1688,7 @@ def play_asm(scn, spec, pin, order_seed=None):
                         progressed = True
             if not progressed:
                 break
-            if L.link.activity == before:
+            if signature() == before:
                 idle += 1
                 if idle >= 6:
                     break
@@ -1679,6 +1716,8 @@ def play_asm(scn, spec, pin, order_seed=None):
             o["data_c2s"] = hashlib.sha256(got1).hexdigest()[:16] + ":%d" % len(got1)
             o["data_s2c"] = hashlib.sha256(got2).hexdigest()[:16] + ":%d" % len(got2)
             extra = 0
+            if scn.get("hb"):
+                o["heartbeat_responses"] = [x.hex() for x in _HB]
             if scn.get("ku"):
                 got3 = bytes(sm.got[len(d1):len(d1) + len(d3)])
                 extra = len(d3)
@@ -1920,16 +1959,34 @@ def live_runs(ctx):
 
 # =============================================================================================
 def run(ctx):
-    ctx.rule = ("(a) scripted schedules (all-at-once, 1-byte, two/three-way splits at every position, random chunks, 0-3 "
-                "would-blocks between events, EOF/error at every byte position, partial accepts incl. 0) x raw/BufferedSocket x "
-                "SSLv3/SSLv2/malformed/oversized records; random Defragmenter configurations and op sequences; plaintext record "
-                "streams through a fresh TLSConnection._getNextRecord; AsyncStateMachine op sequences (all pairs + random walks). "
-                "(b)/(c) live handshakes per version/key exchange/client auth/resumption/HRR + data + close under seeded "
-                "schedules, blocking/generator/AsyncStateMachine drivers, record re-framing. distinct = distinct "
-                "(scenario, schedule); non-trivial = at least one event besides 'deliver everything'")
+    ctx.rule = ("(a) scripted schedules (all-at-once, 1-byte, two/three-way splits at every position, header split 1+4, "
+                "random chunks, 0-3 would-blocks between events, EOF/error at every byte position, partial accepts incl. 0) x "
+                "raw/BufferedSocket x SSLv3/SSLv2/malformed/oversized records; BufferedSocket recv/send/sendall/flush/"
+                "buffer_writes sequences; random Defragmenter configurations and op sequences; plaintext record streams "
+                "(handshake/alert/CCS/app data/heartbeat interleaved, zero-length records) through a fresh "
+                "TLSConnection._getNextRecord; AsyncStateMachine op sequences (all pairs + random walks). "
+                "(b) live conversations (handshake, data both ways, close; SSLv3..TLS1.3, RSA/DHE/ECDHE/ECDSA/SRP/anon, "
+                "client auth, session-id/ticket/PSK resumption, HRR, KeyUpdate, heartbeat, two-way close, small records, "
+                "40 kB transfers, version negotiation, a failing negotiation) under seeded recv/send schedules on either or "
+                "both endpoints and seeded generator interleavings, driven as generators, through AsyncStateMachine and "
+                "through the blocking API in threads, each compared with the unconstrained generator run under pinned "
+                "per-endpoint randomness and clock (all lab.observe fields incl. secrets, data, exception classes, wire "
+                "bytes); (c) on-path re-framing of the plaintext handshake flights: 1-byte records, random sizes, whole "
+                "flight in one record, cuts inside message headers. distinct = distinct (scenario, driver, schedule); "
+                "non-trivial = every live run and every (a) case")
     ctx.assumptions = ["ScriptSock (harness/props/c14.py) has the semantics of Tls.IO.Sock: one event per recv()/send() call",
                        "socket.sendall has blocking semantics (BufferedSocket.flush); partial accepts apply to send() only",
-                       "randomness of both endpoints is pinned per endpoint in the live differential runs"]
+                       "randomness (os.urandom) and the clock are pinned per endpoint in the live differential runs",
+                       "framings the protocol forbids are not generated: zero-length handshake fragments, handshake data "
+                       "interleaved with other content types inside a message, fragments spanning a key change "
+                       "(records after ChangeCipherSpec are left untouched by the re-framer)",
+                       "BufferedSocket write order is stated under the callers' discipline: buffer_writes is switched off "
+                       "only right after flush() (what _sendMsgs/_sendError do)"]
+    ctx.extra["not_modelled"] = ["record protection in the Lean model (live runs use the real ciphers)",
+                                 "MessageSocket.recvMessage/queueMessage bodies (only their blocking wrappers' shape)",
+                                 "the TLS 1.3 record-boundary alignment check and message parsing in _getMsg",
+                                 "socket.sendall partial acceptance; OS-level thread interleavings beyond those observed",
+                                 "interleaved content types in the Lean refragmentation theorem (covered by correspondence)"]
     ctx.budget_s = ctx.pick(170, 1150)
     P = Pending(ctx)
     check_wrappers(ctx)
